@@ -379,6 +379,14 @@ def replay_eval(pid, d):
     if not inp:
         print('replay file carries no concrete input (correspondence failure)')
         return 0
+    if pid == 'C18':
+        import analysis_check as ac
+        msg = ac.replay(inp)
+        if msg:
+            print(f'reproduced: property=C18 {msg}')
+            return 1
+        print('not reproduced on the current tree (equity / ICM inputs are re-run by the full check)')
+        return 0
     if pid == 'C19':
         import reprs
         msg = reprs.replay(inp)
@@ -479,6 +487,64 @@ def decide_c19(pid, spec, tier, seed, theorems, t0):
     return rc
 
 
-for _pid, _fn in (('C04', decide_c04), ('C05', decide_c05), ('C19', decide_c19)):
+def _c18_part(args):
+    import analysis_check as ac
+    name, seed, count, thorough = args
+    if name == 'ranges':
+        return name, ac.check_ranges(seed, count, thorough)
+    return name, getattr(ac, 'check_' + name)(seed, count)
+
+
+def decide_c18(pid, spec, tier, seed, theorems, t0):
+    from concurrent.futures import ProcessPoolExecutor
+    th = tier == 'thorough'
+    k = 8 if th else 1
+    jobs = [('ranges', seed * 100, 600, th)]
+    for j in range(6 * k):
+        jobs += [('equities', seed * 100 + j, 60, th), ('icm', seed * 100 + j, 250, th)]
+    with ProcessPoolExecutor(max_workers=16) as ex:
+        rs = list(ex.map(_c18_part, jobs))
+    viols = [v for _, r in rs for v in r['viols']]
+    diffs = [dict(d, part=name) for name, r in rs for d in r['diffs']]
+    counts = Counter()
+    dist = Counter()
+    for name, r in rs:
+        counts[name] += r['count']
+        dist.update(r.get('dist', {}))
+    rc = 0
+    if viols:
+        v = viols[0]
+        replay = fw.write_replay(pid, seed, dict(kind='violation', property=pid, clause=v['clause'],
+                                                  signature=v['signature'], detail=v['detail'], input=v['input']))
+        print(f'VIOLATION property={pid} replay={replay}')
+        rc = 1
+    elif diffs:
+        replay = fw.write_replay(pid, seed, dict(kind='correspondence', property=pid,
+                                                  theorems_no_longer_tied=[n for n, _ in theorems],
+                                                  first_difference=diffs[0], searched_inputs=sum(counts.values())))
+        print(f'VIOLATION property={pid} replay={replay} no-failing-input-found')
+        rc = 1
+    wall = time.time() - t0
+    cov = dict(obligations=len(theorems), discharged=len(theorems),
+               checker_cmd=f'cd lean && lake build PK && lake env lean PK/Audit/{pid}.lean',
+               trusted_base=fw.TRUSTED_BASE, theorems=[dict(name=n, axioms=ax) for n, ax in theorems],
+               evaluations=sum(counts.values()), distinct_nontrivial=sum(counts.values()),
+               rule='ranges: every XY / XYs / XYo / + form of every rank pair of the standard and short-deck orders (exhaustive), '
+                    'interval forms (sampled; all 13^4 x suffix in the thorough tier), composite texts with seven kinds of separator, '
+                    'malformed tokens; equities: fully specified deals of eight hand-type tuples incl. two hi-lo games, with twin '
+                    'holdings (ties in one half) and low-heavy decks, compared with the model and with the engine playing the deal '
+                    'all-in; ICM: 1-6 players, 0-n payouts, integer / rational / equal / skewed chips',
+               correspondence=dict(inputs=dict(counts), differences=len(diffs)),
+               monitor=dict(violations_new=len(viols)), distribution=dict(dist), samples=[])
+    fw.write_evidence(pid, tier, seed, cov, [
+        'equities and ICM are computed by the code in binary floating point; theorems are about exact rationals and the comparison uses a relative tolerance of 1e-9',
+        'equities: only the fully specified case (nothing to sample) is modelled; Monte-Carlo sampling is outside the property',
+    ], wall, len(viols) + (1 if rc and not viols else 0))
+    print(f'{pid}: theorems={len(theorems)} inputs={dict(counts)} diffs={len(diffs)} spec_violations={len(viols)} '
+          f'wall={wall:.1f}s -> {"FAIL" if rc else "ok"}')
+    return rc
+
+
+for _pid, _fn in (('C04', decide_c04), ('C05', decide_c05), ('C19', decide_c19), ('C18', decide_c18)):
     if os.path.exists(os.path.join(fw.LEAN, 'PK', 'Audit', f'{_pid}.lean')):
         PROPS[_pid] = dict(kind='eval', decide=_fn, monitors=[])
